@@ -147,6 +147,7 @@ pub fn guarded<T>(f: impl FnOnce() -> T) -> Result<T, String> {
 // ---------------------------------------------------------------------------------------------
 // exhaustive enumeration of op sequences, in parallel
 
+#[derive(Clone)]
 pub struct Profile {
     pub name: String,
     pub seeds: Vec<Seed>,
